@@ -229,7 +229,7 @@ def step (d : D) (t : List String) : D × String :=
     | some (s, outs) => ({ d with st := s }, joinWith " " outs)
     | none => (d, "bad-op")
   | ["nop"] => (d, "skip")
-  | ["admit", id, fork] =>
+  | ["persist", id, fork] =>
     match id.toNat?, parseBool fork with
     | some id, some fork =>
       match aget d.pool id with
